@@ -41,13 +41,49 @@ type edge struct {
 
 func (e edge) key() string { return e.Kind + " " + e.Caller + " " + e.Callee }
 
+// capture: a function literal that runs in ANOTHER goroutine (the target of a go statement, or sent on a
+// channel) uses a variable declared in the function that creates it.
+//
+//	Kind  chan  - a channel (a synchronisation object)
+//	      basic - a number, string, bool (also named ones: time.Duration): nothing is shared but the value
+//	      ref   - anything through which memory is shared: pointer, map, slice, interface, func, struct
+//	Type  the variable's type, package-qualified by package name, without spaces
+//	Imm   the creating function does not write the variable at or after the closure (writes before the
+//	      closure is created happen-before its goroutine starts); renaming the variable changes nothing
+type capture struct {
+	Func, Var, Kind, Type, Role string
+	Imm                         bool
+	Pos                         string
+	obj                         types.Object
+	lit                         *ast.FuncLit
+}
+
+func (c capture) key() string {
+	imm := "mut"
+	if c.Imm {
+		imm = "imm"
+	}
+	return "cap " + c.Func + " " + c.Var + " " + c.Kind + " " + c.Type + " " + c.Role + " " + imm
+}
+
+func kindOf(t types.Type) string {
+	switch u := t.Underlying().(type) {
+	case *types.Chan:
+		return "chan"
+	case *types.Basic:
+		_ = u
+		return "basic"
+	}
+	return "ref"
+}
+
 func (s site) key() string { return s.Func + " " + s.Type + " " + s.Field + " " + s.Role }
 
-func listSites(serviceDir string) ([]site, []edge, error) {
+func listSites(serviceDir string) ([]site, []edge, []capture, error) {
 	fset := token.NewFileSet()
 	ents, err := os.ReadDir(serviceDir)
 	if err != nil {
-		return nil, nil, err
+		return nil, nil, nil, err
 	}
 	var files []*ast.File
 	for _, e := range ents {
@@ -57,13 +93,13 @@ func listSites(serviceDir string) ([]site, []edge, error) {
 		}
 		f, err := parser.ParseFile(fset, filepath.Join(serviceDir, n), nil, 0)
 		if err != nil {
-			return nil, nil, err
+			return nil, nil, nil, err
 		}
 		files = append(files, f)
 	}
 	wd, _ := os.Getwd()
 	if err := os.Chdir(serviceDir); err != nil { // the source importer resolves imports relative to the module of cwd
-		return nil, nil, err
+		return nil, nil, nil, err
 	}
 	defer os.Chdir(wd)
 	info := &types.Info{Selections: map[*ast.SelectorExpr]*types.Selection{}, Uses: map[*ast.Ident]types.Object{},
@@ -72,11 +108,12 @@ func listSites(serviceDir string) ([]site, []edge, error) {
 	if _, err := conf.Check("github.com/cuteLittleDevil/go-jt808/service", fset, files, info); err != nil {
 		// type errors in unrelated code are tolerated as long as the selections were resolved
 		if len(info.Selections) == 0 {
-			return nil, nil, fmt.Errorf("type check: %v", err)
+			return nil, nil, nil, fmt.Errorf("type check: %v", err)
 		}
 	}
 	var out []site
 	var edges []edge
+	var caps []capture
 	skipCall := map[*ast.CallExpr]bool{}
 	calleeName := func(fun ast.Expr) string { // name of a function/method of package service, "" otherwise
 		switch x := fun.(type) {
@@ -129,8 +166,26 @@ func listSites(serviceDir string) ([]site, []edge, error) {
 				name = structOfExpr(fd.Recv.List[0].Type) + "." + name
 			}
 			nlit := 0
-			var walk func(n ast.Node, fn string, writes map[ast.Expr]bool)
-			walk = func(root ast.Node, fn string, _ map[ast.Expr]bool) {
+			varWrites := map[types.Object][]token.Pos{} // assignments (not declarations), ++/--, &x of local variables
+			noteVarWrite := func(e ast.Expr) {
+				for {
+					switch x := e.(type) {
+					case *ast.ParenExpr:
+						e = x.X
+						continue
+					}
+					break
+				}
+				if id, ok := e.(*ast.Ident); ok {
+					if obj, ok := info.Uses[id]; ok {
+						varWrites[obj] = append(varWrites[obj], id.Pos())
+					}
+				}
+			}
+			capStart := len(caps)
+			// remote: the enclosing function literal that runs in another goroutine (nil: none), remoteName its name
+			var walk func(n ast.Node, fn string, remote *ast.FuncLit, remoteName string)
+			walk = func(root ast.Node, fn string, remote *ast.FuncLit, remoteName string) {
 				writes := map[ast.Expr]bool{}
 				markW := func(e ast.Expr) {
 					for {
@@ -159,9 +214,9 @@ func listSites(serviceDir string) ([]site, []edge, error) {
 							nlit++
 							lit := fmt.Sprintf("%s$%d", name, nlit)
 							edges = append(edges, edge{"spawn", fn, lit, fset.Position(x.Pos()).String()})
-							walk(fl, lit, nil)
+							walk(fl, lit, fl, lit)
 							for _, a := range x.Call.Args { // the arguments are evaluated by the caller
-								ast.Inspect(a, func(m ast.Node) bool { return true })
+								walk(a, fn, remote, remoteName)
 							}
 							return false
 						}
@@ -175,24 +230,64 @@ func listSites(serviceDir string) ([]site, []edge, error) {
 							nlit++
 							lit := fmt.Sprintf("%s$%d", name, nlit)
 							edges = append(edges, edge{"call", fn, lit, fset.Position(x.Pos()).String()})
-							walk(fl, lit, nil)
+							walk(fl, lit, remote, remoteName)
+							return false
+						}
+					case *ast.SendStmt:
+						if fl, ok := x.Value.(*ast.FuncLit); ok { // a closure handed to another goroutine through a channel
+							nlit++
+							lit := fmt.Sprintf("%s$%d", name, nlit)
+							edges = append(edges, edge{"send", fn, lit, fset.Position(x.Pos()).String()})
+							walk(x.Chan, fn, remote, remoteName)
+							walk(fl, lit, fl, lit)
 							return false
 						}
 					case *ast.FuncLit:
-						if n != root {
+						if n != root { // passed as an argument, stored in a variable, invoked at once: runs in this goroutine
 							nlit++
-							walk(x, fmt.Sprintf("%s$%d", name, nlit), nil)
+							lit := fmt.Sprintf("%s$%d", name, nlit)
+							edges = append(edges, edge{"call", fn, lit, fset.Position(x.Pos()).String()})
+							walk(x, lit, remote, remoteName)
 							return false
+						}
+					case *ast.Ident:
+						if remote != nil {
+							if obj, ok := info.Uses[x].(*types.Var); ok && !obj.IsField() &&
+								(obj.Pos() < remote.Pos() || obj.Pos() >= remote.End()) && obj.Pos() >= fd.Pos() && obj.Pos() < fd.End() {
+								role := "r"
+								if writes[x] {
+									role = "w"
+								}
+								ts := strings.ReplaceAll(types.TypeString(obj.Type(), func(p *types.Package) string { return p.Name() }), " ", "")
+								if strings.HasPrefix(ts, "service.") {
+									ts = ts[8:]
+								}
+								ts = strings.ReplaceAll(ts, "*service.", "*")
+								caps = append(caps, capture{Func: remoteName, Var: x.Name, Kind: kindOf(obj.Type()), Type: ts, Role: role,
+									Pos: fset.Position(x.Pos()).String(), obj: obj, lit: remote})
+							}
 						}
 					case *ast.AssignStmt:
 						for _, l := range x.Lhs {
 							markW(l)
+							noteVarWrite(l)
+						}
+					case *ast.RangeStmt:
+						if x.Tok == token.ASSIGN {
+							if x.Key != nil {
+								noteVarWrite(x.Key)
+							}
+							if x.Value != nil {
+								noteVarWrite(x.Value)
+							}
 						}
 					case *ast.IncDecStmt:
 						markW(x.X)
+						noteVarWrite(x.X)
 					case *ast.UnaryExpr:
 						if x.Op == token.AND {
 							markW(x.X)
+							noteVarWrite(x.X)
 						}
 					case *ast.CallExpr:
 						if cn := calleeName(x.Fun); cn != "" && !skipCall[x] {
@@ -230,7 +325,19 @@ func listSites(serviceDir string) ([]site, []edge, error) {
 					return true
 				})
 			}
-			walk(fd.Body, name, nil)
+			walk(fd.Body, name, nil, "")
+			for i := capStart; i < len(caps); i++ { // immutable: no write outside the closure at or after its creation
+				cp := &caps[i]
+				cp.Imm = true
+				for _, p := range varWrites[cp.obj] {
+					if p >= cp.lit.Pos() && p < cp.lit.End() {
+						continue // inside the closure: that is the capture's own role
+					}
+					if p >= cp.lit.Pos() {
+						cp.Imm = false
+					}
+				}
+			}
 		}
 	}
 	// distinct (func, type, field, role), stable order
@@ -252,7 +359,23 @@ func listSites(serviceDir string) ([]site, []edge, error) {
 		}
 	}
 	sort.Slice(uniqE, func(i, j int) bool { return uniqE[i].key() < uniqE[j].key() })
-	return uniq, uniqE, nil
+	seenC := map[string]bool{}
+	var uniqC []capture
+	for _, c := range caps {
+		if c.Role == "w" { // a written variable is listed once, as written
+			r := c
+			r.Role = "r"
+			seenC[r.key()] = true
+		}
+	}
+	for _, c := range caps {
+		if !seenC[c.key()] {
+			seenC[c.key()] = true
+			uniqC = append(uniqC, c)
+		}
+	}
+	sort.Slice(uniqC, func(i, j int) bool { return uniqC[i].key() < uniqC[j].key() })
+	return uniq, uniqE, uniqC, nil
 }
 
 func structOfExpr(e ast.Expr) string {
